@@ -101,7 +101,11 @@ func run(ch simrt.Chooser, prop string, keep bool) *kit.Outcome {
 	w := &world{}
 	res := simrt.Run(simrt.RunConfig{KeepLog: keep, StepCap: 50000}, ch, w.main)
 	o := &kit.Outcome{Res: res, Viol: w.viol}
-	if res.End != "ok" {
+	if res.End == "stepcap" && !w.writesDone {
+		// with round-robin fairness for 25 000 steps the writer still has not come
+		// out of its Write calls: it is waiting (spinning) for a receiver
+		o.Viol = append(o.Viol, kit.Violation{Prop: "C19", Class: "no-progress-within-bound", Detail: fmt.Sprintf("writer and consumers did not come to rest within %d scheduler steps (longest correct run: about a hundred) and the writer is still inside Write/WriteString; parked: %s", res.Steps, strings.Join(res.Blocked, "; ")), Sig: "no-progress-within-bound"})
+	} else if res.End != "ok" {
 		o.Infra = "run ended with " + res.End + ": " + strings.Join(res.Blocked, "; ")
 	}
 	for _, r := range res.Races {
